@@ -2,7 +2,10 @@
 """Regenerate theories/Gen/Grammar.v from /repo/src/pipeline/template.pest.
 
 Translates the pest grammar into a PEG syntax tree (one Definition per rule, in
-topological order).  Fails (exit 3) on anything outside the translated subset:
+topological order) in a NORMAL FORM: silent rules are inlined, sequences and choices
+are flattened to the right, a negative look-ahead over a choice becomes the sequence
+of the negative look-aheads over its members (all three are identities of PEG
+semantics), so that grammars differing only in such grouping give the same output.  Fails (exit 3) on anything outside the translated subset:
 recursion, WHITESPACE/COMMENT, PUSH/POP, case-insensitive strings, unknown
 modifiers or built-ins."""
 import re, sys, hashlib
@@ -79,6 +82,45 @@ while pos < len(toks):
     take('op', '{'); e = parse_expr(); take('op', '}')
     if name in ('WHITESPACE', 'COMMENT'): raise SystemExit("pest2coq: UNSUPPORTED: implicit whitespace not supported")
     rules[name] = (kind, e); order.append(name)
+# ---- normal form ---------------------------------------------------------------------------
+# Silent rules (`_{ }`) produce no token and have no other effect, so they are inlined where
+# they are used and do not appear in the output at all; sequences and choices are flattened to
+# the right (both are associative in a PEG); a negative look-ahead over a choice is the
+# sequence of the negative look-aheads over its members.  Two grammars that differ only in how
+# they name and group such pieces therefore give the same Gen/Grammar.v.
+def inline(e, seen=()):
+    if e[0] == 'ref' and e[1] in rules and rules[e[1]][0] == 'Silent':
+        if e[1] in seen: raise SystemExit("pest2coq: UNSUPPORTED: grammar is recursive through %s" % e[1])
+        return inline(rules[e[1]][1], seen + (e[1],))
+    if e[0] in ('ref', 'str'): return e
+    return (e[0],) + tuple(inline(x, seen) for x in e[1:])
+def flat(tag, e):
+    return flat(tag, e[1]) + flat(tag, e[2]) if e[0] == tag else [e]
+def build(tag, xs):
+    e = xs[-1]
+    for a in reversed(xs[:-1]): e = (tag, a, e)
+    return e
+def norm(e):
+    if e[0] in ('ref', 'str'): return e
+    if e[0] == 'seq':
+        xs = []
+        for x in flat('seq', e): xs.extend(flat('seq', norm(x)))
+        return build('seq', xs)
+    if e[0] == 'alt':
+        xs = []
+        for x in flat('alt', e): xs.extend(flat('alt', norm(x)))
+        return build('alt', xs)
+    if e[0] == 'not':
+        b = norm(e[1])
+        if b[0] == 'alt': return build('seq', [('not', x) for x in flat('alt', b)])
+        return ('not', b)
+    return (e[0], norm(e[1]))
+silent = [n for n in order if rules[n][0] == 'Silent']
+for n in list(rules):
+    rules[n] = (rules[n][0], norm(inline(rules[n][1])))
+for n in silent:
+    del rules[n]
+order = [n for n in order if n not in silent]
 BUILTIN = {'ANY': 'PAny', 'EOI': 'PEoiTok', 'ASCII_DIGIT': '(PRange 48 57)', 'ASCII_ALPHA': '(PAlt (PRange 97 122) (PRange 65 90))'}
 def refs(e):
     if e[0] == 'ref': return {e[1]} if e[1] not in BUILTIN else set()
